@@ -146,28 +146,12 @@ fn run_both(w: &DataWriterQos, p: &PublisherQos, r: &DataReaderQos, s: &Subscrib
     v
 }
 
-// @check props=C15 tier=quick
-// @desc for EVERY combination of RxO policy values both real compatibility functions (writer side and reader side) report exactly the set of policies that the DDS 1.4 §2.2.3 table calls incompatible (incompatible <=> non-empty list; no foreign id, no duplicate), and both sides reach the same verdict and the same policy set. The liveliness / presentation verdicts are compared with the table outside the recorded triggers KF-C15-1 / KF-C15-2 (the *__known harnesses keep those)
-// @bounds none on scalars: all 4 durability, 3 liveliness, 2 reliability, 2 destination-order, 2 ownership kinds, 2 access scopes x coherent x ordered on both sides; deadline, latency budget, liveliness lease: Infinite or Finite(any i32 sec, any nanosec < 10^9) on both sides; data representation lists of length 0..=2 with any u16 ids on both sides. unwind 10 = 9 list entries + 1
-// @assume liveliness bit compared only if NOT trigger KF-C15-1; presentation bit compared only if NOT trigger KF-C15-2 (negations of the recorded triggers); nanosec < 10^9 (Duration::new normalizes)
-// @enc dcps::dcps_domain_participant::discovery_methods::get_discovered_reader_incompatible_qos_policy_list
-// @enc dcps::dcps_domain_participant::discovery_methods::get_discovered_writer_incompatible_qos_policy_list
-// @enc infrastructure::qos_policy (PartialOrd impls of the policy kinds / policies)
-// @enc infrastructure::time::DurationKind::partial_cmp
-#[kani::proof]
-#[kani::unwind(10)]
-fn c15_rxo_table__rest() {
-    let w = sq::any_rxo_writer_qos();
-    let r = sq::any_rxo_reader_qos();
-    let mut p = PublisherQos::const_default();
-    p.presentation = sq::any_presentation();
-    let mut s = SubscriberQos::const_default();
-    s.presentation = sq::any_presentation();
-
-    let expect = table(&w, &p, &r, &s);
-    let t1 = trigger_liveliness(&w, &r);
-    let t2 = trigger_presentation(&p, &s);
-    let v = run_both(&w, &p, &r, &s);
+/// The whole obligation for one (writer, publisher, reader, subscriber) QoS quadruple.
+fn check_pair(w: &DataWriterQos, p: &PublisherQos, r: &DataReaderQos, s: &SubscriberQos) -> (u32, u32, bool, bool) {
+    let expect = table(w, p, r, s);
+    let t1 = trigger_liveliness(w, r);
+    let t2 = trigger_presentation(p, s);
+    let v = run_both(w, p, r, s);
     let (m1, n1, valid1) = v.writer_side;
     let (m2, n2, valid2) = v.reader_side;
 
@@ -186,31 +170,239 @@ fn c15_rxo_table__rest() {
     if t2 {
         ignore |= bit(PRESENTATION_QOS_POLICY_ID);
     }
-    let keep = !ignore;
-    assert!((m1 ^ expect) & keep & bit(DURABILITY_QOS_POLICY_ID) == 0, "C15: durability verdict equals the DDS table");
-    assert!((m1 ^ expect) & keep & bit(PRESENTATION_QOS_POLICY_ID) == 0, "C15: presentation verdict equals the DDS table (outside KF-C15-2)");
-    assert!((m1 ^ expect) & keep & bit(DEADLINE_QOS_POLICY_ID) == 0, "C15: deadline verdict equals the DDS table");
-    assert!((m1 ^ expect) & keep & bit(LATENCYBUDGET_QOS_POLICY_ID) == 0, "C15: latency budget verdict equals the DDS table");
-    assert!((m1 ^ expect) & keep & bit(LIVELINESS_QOS_POLICY_ID) == 0, "C15: liveliness verdict equals the DDS table (outside KF-C15-1)");
-    assert!((m1 ^ expect) & keep & bit(RELIABILITY_QOS_POLICY_ID) == 0, "C15: reliability verdict equals the DDS table");
-    assert!((m1 ^ expect) & keep & bit(DESTINATIONORDER_QOS_POLICY_ID) == 0, "C15: destination order verdict equals the DDS table");
-    assert!((m1 ^ expect) & keep & bit(OWNERSHIP_QOS_POLICY_ID) == 0, "C15: ownership verdict equals the DDS table");
-    assert!((m1 ^ expect) & keep & bit(DATA_REPRESENTATION_QOS_POLICY_ID) == 0, "C15: data representation verdict equals the DDS table");
+    let diff = (m1 ^ expect) & !ignore;
+    assert!(diff & bit(DURABILITY_QOS_POLICY_ID) == 0, "C15: durability verdict equals the DDS table");
+    assert!(diff & bit(PRESENTATION_QOS_POLICY_ID) == 0, "C15: presentation verdict equals the DDS table (outside KF-C15-2)");
+    assert!(diff & bit(DEADLINE_QOS_POLICY_ID) == 0, "C15: deadline verdict equals the DDS table");
+    assert!(diff & bit(LATENCYBUDGET_QOS_POLICY_ID) == 0, "C15: latency budget verdict equals the DDS table");
+    assert!(diff & bit(LIVELINESS_QOS_POLICY_ID) == 0, "C15: liveliness verdict equals the DDS table (outside KF-C15-1)");
+    assert!(diff & bit(RELIABILITY_QOS_POLICY_ID) == 0, "C15: reliability verdict equals the DDS table");
+    assert!(diff & bit(DESTINATIONORDER_QOS_POLICY_ID) == 0, "C15: destination order verdict equals the DDS table");
+    assert!(diff & bit(OWNERSHIP_QOS_POLICY_ID) == 0, "C15: ownership verdict equals the DDS table");
+    assert!(diff & bit(DATA_REPRESENTATION_QOS_POLICY_ID) == 0, "C15: data representation verdict equals the DDS table");
     if !t1 && !t2 {
         assert!((expect != 0) == (n1 != 0), "C15: incompatible per the table <=> non-empty list");
         assert!(m1 == expect && m2 == expect, "C15: the list names exactly the offending policies");
     }
+    (m1, expect, t1, t2)
+}
 
-    kani::cover!(!t1 && !t2 && expect == 0 && n1 == 0, "fully compatible pair");
-    kani::cover!(!t1 && !t2 && m1 == RXO_BITS, "all nine policies incompatible at once");
-    kani::cover!(!t1 && !t2 && m1 == bit(LIVELINESS_QOS_POLICY_ID), "only liveliness incompatible (offered kind below requested kind)");
-    kani::cover!(!t1 && !t2 && m1 == bit(DEADLINE_QOS_POLICY_ID), "only deadline incompatible");
-    kani::cover!(!t1 && !t2 && m1 == bit(DATA_REPRESENTATION_QOS_POLICY_ID) && r.representation.value.len() == 2, "only representation incompatible, reader list of two");
-    kani::cover!(!t1 && !t2 && expect == 0 && r.representation.value.len() == 2 && w.representation.value.len() == 1 && r.representation.value[1] == w.representation.value[0], "offered representation matched by the reader's second entry");
-    kani::cover!(!t2 && m1 == bit(PRESENTATION_QOS_POLICY_ID), "only presentation incompatible (outside the trigger)");
-    kani::cover!(t1, "liveliness trigger region reachable (compared by the __known harness)");
-    kani::cover!(t2, "presentation trigger region reachable (compared by the __known harness)");
+// Each symbolic policy adds one conditional `Vec::push` to both real functions; CBMC has to keep
+// the grow/realloc path of every later push feasible, so the cost grows steeply with the number of
+// policies that are symbolic at once (4 at once: 170 s / 4 M SAT variables; all 9: > 16 GB).  The
+// quick tier therefore covers the nine policies in groups of two or three that are symbolic
+// together (the real functions test each policy in its own independent `if`); the thorough tier
+// adds larger groups.
+
+// @check props=C15 tier=quick
+// @desc group 1 (durability, deadline, latency budget symbolic on both sides): both real compatibility functions (writer side and reader side) report exactly the set of policies that the DDS 1.4 §2.2.3 table calls incompatible (incompatible <=> non-empty list; no foreign id, no duplicate), and both sides reach the same verdict and the same policy set
+// @bounds none on the scalars of the group: 4 durability kinds, deadline period and latency budget Infinite or Finite(any i32 sec, any nanosec < 10^9), each on both sides; the other RxO policies at their defaults. unwind 10 = 9 list entries + 1
+// @assume nanosec < 10^9 (Duration::new normalizes)
+// @enc dcps::dcps_domain_participant::discovery_methods::get_discovered_reader_incompatible_qos_policy_list
+// @enc dcps::dcps_domain_participant::discovery_methods::get_discovered_writer_incompatible_qos_policy_list
+// @enc infrastructure::qos_policy (PartialOrd impls of the policy kinds / policies)
+// @enc infrastructure::time::DurationKind::partial_cmp
+#[kani::proof]
+#[kani::unwind(10)]
+fn c15_rxo_group1_durability_deadline_latency__rest() {
+    let mut w = DataWriterQos::const_default();
+    let mut r = DataReaderQos::const_default();
+    w.durability.kind = sq::any_durability();
+    r.durability.kind = sq::any_durability();
+    w.deadline.period = sq::any_duration_kind();
+    r.deadline.period = sq::any_duration_kind();
+    w.latency_budget.duration = sq::any_duration_kind();
+    r.latency_budget.duration = sq::any_duration_kind();
+    let p = PublisherQos::const_default();
+    let s = SubscriberQos::const_default();
+
+    let (m1, expect, _t1, _t2) = check_pair(&w, &p, &r, &s);
+
+    kani::cover!(expect == 0 && m1 == 0, "fully compatible pair");
+    kani::cover!(m1 == (bit(DURABILITY_QOS_POLICY_ID) | bit(DEADLINE_QOS_POLICY_ID) | bit(LATENCYBUDGET_QOS_POLICY_ID)), "all three policies of the group incompatible at once");
+    kani::cover!(m1 == bit(DEADLINE_QOS_POLICY_ID) && r.deadline.period != crate::infrastructure::time::DurationKind::Infinite && w.deadline.period != crate::infrastructure::time::DurationKind::Infinite, "only deadline incompatible, both finite");
+    kani::cover!(m1 == bit(LATENCYBUDGET_QOS_POLICY_ID), "only latency budget incompatible");
+    kani::cover!(m1 == bit(DURABILITY_QOS_POLICY_ID), "only durability incompatible");
+    kani::cover!(expect == 0 && w.deadline.period == r.deadline.period && w.deadline.period != crate::infrastructure::time::DurationKind::Infinite, "equal finite deadlines are compatible");
     core::mem::forget((w, r, p, s));
+}
+
+// @check props=C15 tier=quick
+// @desc group 2 (liveliness kind + lease, presentation scope + coherent + ordered symbolic on both sides): exact offending set per the DDS table on both sides and agreement of the two sides; the liveliness / presentation verdicts are compared with the table outside the recorded triggers KF-C15-1 / KF-C15-2 (the *__known harnesses keep those); agreement of the two sides is asserted everywhere, inside the triggers too
+// @bounds none on the scalars of the group: 3 liveliness kinds, lease Infinite or Finite(any i32 sec, any nanosec < 10^9), 2 access scopes x coherent x ordered, each on both sides; the other policies at their defaults. unwind 10
+// @assume liveliness bit compared only if NOT trigger KF-C15-1; presentation bit compared only if NOT trigger KF-C15-2 (negations of the recorded triggers); nanosec < 10^9
+// @enc dcps::dcps_domain_participant::discovery_methods::get_discovered_reader_incompatible_qos_policy_list
+// @enc dcps::dcps_domain_participant::discovery_methods::get_discovered_writer_incompatible_qos_policy_list
+// @enc infrastructure::qos_policy (PartialOrd impls of the policy kinds / policies)
+#[kani::proof]
+#[kani::unwind(10)]
+fn c15_rxo_group2_liveliness_presentation__rest() {
+    let mut w = DataWriterQos::const_default();
+    let mut r = DataReaderQos::const_default();
+    w.liveliness.kind = sq::any_liveliness();
+    w.liveliness.lease_duration = sq::any_duration_kind();
+    r.liveliness.kind = sq::any_liveliness();
+    r.liveliness.lease_duration = sq::any_duration_kind();
+    let mut p = PublisherQos::const_default();
+    p.presentation = sq::any_presentation();
+    let mut s = SubscriberQos::const_default();
+    s.presentation = sq::any_presentation();
+
+    let (m1, expect, t1, t2) = check_pair(&w, &p, &r, &s);
+
+    kani::cover!(!t1 && !t2 && expect == 0 && m1 == 0, "fully compatible pair");
+    kani::cover!(!t1 && !t2 && m1 == (bit(LIVELINESS_QOS_POLICY_ID) | bit(PRESENTATION_QOS_POLICY_ID)), "both policies of the group incompatible at once");
+    kani::cover!(!t1 && !t2 && m1 == bit(LIVELINESS_QOS_POLICY_ID), "only liveliness incompatible (offered kind below requested kind)");
+    kani::cover!(!t1 && !t2 && expect == 0 && sq::liveliness_rank(w.liveliness.kind) > sq::liveliness_rank(r.liveliness.kind), "stronger offered liveliness kind with a lease not longer than requested");
+    kani::cover!(!t1 && !t2 && m1 == bit(PRESENTATION_QOS_POLICY_ID), "only presentation incompatible (outside the trigger)");
+    kani::cover!(t1, "liveliness trigger region reachable (verdict compared by the __known harness, agreement here)");
+    kani::cover!(t2, "presentation trigger region reachable (verdict compared by the __known harness, agreement here)");
+    core::mem::forget((w, r, p, s));
+}
+
+// @check props=C15 tier=quick
+// @desc group 3 (reliability, destination order, ownership kinds symbolic on both sides): exact offending set per the DDS table on both sides and agreement of the two sides
+// @bounds all 2 x 2 reliability, 2 x 2 destination-order, 2 x 2 ownership kind pairs; the other policies at their defaults. unwind 10
+// @enc dcps::dcps_domain_participant::discovery_methods::get_discovered_reader_incompatible_qos_policy_list
+// @enc dcps::dcps_domain_participant::discovery_methods::get_discovered_writer_incompatible_qos_policy_list
+#[kani::proof]
+#[kani::unwind(10)]
+fn c15_rxo_group3_reliability_order_ownership__rest() {
+    let mut w = DataWriterQos::const_default();
+    let mut r = DataReaderQos::const_default();
+    w.reliability.kind = sq::any_reliability();
+    r.reliability.kind = sq::any_reliability();
+    w.destination_order.kind = sq::any_destination_order();
+    r.destination_order.kind = sq::any_destination_order();
+    w.ownership.kind = sq::any_ownership();
+    r.ownership.kind = sq::any_ownership();
+    let p = PublisherQos::const_default();
+    let s = SubscriberQos::const_default();
+
+    let (m1, expect, _t1, _t2) = check_pair(&w, &p, &r, &s);
+
+    kani::cover!(expect == 0 && m1 == 0, "fully compatible pair");
+    kani::cover!(m1 == (bit(RELIABILITY_QOS_POLICY_ID) | bit(DESTINATIONORDER_QOS_POLICY_ID) | bit(OWNERSHIP_QOS_POLICY_ID)), "all three policies of the group incompatible at once");
+    kani::cover!(m1 == bit(OWNERSHIP_QOS_POLICY_ID), "only ownership incompatible");
+    kani::cover!(m1 == bit(DESTINATIONORDER_QOS_POLICY_ID), "only destination order incompatible");
+    kani::cover!(m1 == bit(RELIABILITY_QOS_POLICY_ID), "only reliability incompatible");
+    core::mem::forget((w, r, p, s));
+}
+
+// @check props=C15 tier=thorough timeout=1800
+// @desc cross-group obligation: durability, deadline, reliability and ownership symbolic at once on both sides (four conditional pushes): exact offending set, both sides agree
+// @bounds 4 durability kinds, deadline Infinite or Finite(any i32 sec, any nanosec < 10^9), 2 reliability, 2 ownership kinds on both sides; others default. unwind 10
+// @assume nanosec < 10^9
+// @enc dcps::dcps_domain_participant::discovery_methods::get_discovered_reader_incompatible_qos_policy_list
+// @enc dcps::dcps_domain_participant::discovery_methods::get_discovered_writer_incompatible_qos_policy_list
+#[kani::proof]
+#[kani::unwind(10)]
+fn c15_rxo_cross_a__rest() {
+    let mut w = DataWriterQos::const_default();
+    let mut r = DataReaderQos::const_default();
+    w.durability.kind = sq::any_durability();
+    r.durability.kind = sq::any_durability();
+    w.deadline.period = sq::any_duration_kind();
+    r.deadline.period = sq::any_duration_kind();
+    w.reliability.kind = sq::any_reliability();
+    r.reliability.kind = sq::any_reliability();
+    w.ownership.kind = sq::any_ownership();
+    r.ownership.kind = sq::any_ownership();
+    let p = PublisherQos::const_default();
+    let s = SubscriberQos::const_default();
+    let (m1, expect, _t1, _t2) = check_pair(&w, &p, &r, &s);
+    kani::cover!(expect == 0 && m1 == 0, "fully compatible pair");
+    kani::cover!(m1 == (bit(DURABILITY_QOS_POLICY_ID) | bit(DEADLINE_QOS_POLICY_ID) | bit(RELIABILITY_QOS_POLICY_ID) | bit(OWNERSHIP_QOS_POLICY_ID)), "all four incompatible at once");
+    core::mem::forget((w, r, p, s));
+}
+
+// @check props=C15 tier=thorough timeout=1800
+// @desc cross-group obligation: liveliness, latency budget, destination order and presentation symbolic at once on both sides (four conditional pushes): exact offending set outside the recorded triggers, both sides agree everywhere
+// @bounds 3 liveliness kinds, lease and latency budget Infinite or Finite(any i32 sec, any nanosec < 10^9), 2 destination-order kinds, presentation scope x coherent x ordered on both sides; others default. unwind 10
+// @assume liveliness bit compared only if NOT trigger KF-C15-1; presentation bit compared only if NOT trigger KF-C15-2; nanosec < 10^9
+// @enc dcps::dcps_domain_participant::discovery_methods::get_discovered_reader_incompatible_qos_policy_list
+// @enc dcps::dcps_domain_participant::discovery_methods::get_discovered_writer_incompatible_qos_policy_list
+#[kani::proof]
+#[kani::unwind(10)]
+fn c15_rxo_cross_b__rest() {
+    let mut w = DataWriterQos::const_default();
+    let mut r = DataReaderQos::const_default();
+    w.liveliness.kind = sq::any_liveliness();
+    w.liveliness.lease_duration = sq::any_duration_kind();
+    r.liveliness.kind = sq::any_liveliness();
+    r.liveliness.lease_duration = sq::any_duration_kind();
+    w.latency_budget.duration = sq::any_duration_kind();
+    r.latency_budget.duration = sq::any_duration_kind();
+    w.destination_order.kind = sq::any_destination_order();
+    r.destination_order.kind = sq::any_destination_order();
+    let mut p = PublisherQos::const_default();
+    p.presentation = sq::any_presentation();
+    let mut s = SubscriberQos::const_default();
+    s.presentation = sq::any_presentation();
+    let (m1, expect, t1, t2) = check_pair(&w, &p, &r, &s);
+    kani::cover!(!t1 && !t2 && expect == 0 && m1 == 0, "fully compatible pair");
+    kani::cover!(!t1 && !t2 && m1 == (bit(LIVELINESS_QOS_POLICY_ID) | bit(LATENCYBUDGET_QOS_POLICY_ID) | bit(DESTINATIONORDER_QOS_POLICY_ID) | bit(PRESENTATION_QOS_POLICY_ID)), "all four incompatible at once");
+    core::mem::forget((w, r, p, s));
+}
+
+/// One (writer list length, reader list length) case with CONCRETE lengths and symbolic ids.
+fn representation_case(wn: usize, rn: usize) {
+    let mut w = DataWriterQos::const_default();
+    let mut r = DataReaderQos::const_default();
+    let (a, b, c, d): (u16, u16, u16, u16) = (kani::any(), kani::any(), kani::any(), kani::any());
+    w.representation.value = match wn {
+        0 => Vec::new(),
+        1 => alloc::vec![a],
+        _ => alloc::vec![a, b],
+    };
+    r.representation.value = match rn {
+        0 => Vec::new(),
+        1 => alloc::vec![c],
+        _ => alloc::vec![c, d],
+    };
+    let p = PublisherQos::const_default();
+    let s = SubscriberQos::const_default();
+
+    let (m1, expect, _t1, _t2) = check_pair(&w, &p, &r, &s);
+
+    if wn == 0 && rn == 0 {
+        kani::cover!(expect == 0 && m1 == 0, "both lists empty: XCDR matches XCDR");
+    }
+    if wn == 1 && rn == 0 {
+        kani::cover!(m1 == bit(DATA_REPRESENTATION_QOS_POLICY_ID), "non-XCDR offer against an empty reader list");
+        kani::cover!(m1 == 0 && a == XCDR_DATA_REPRESENTATION, "explicit XCDR offer against an empty reader list");
+    }
+    if wn == 0 && rn == 1 {
+        kani::cover!(m1 == bit(DATA_REPRESENTATION_QOS_POLICY_ID), "implicit XCDR offer against a reader without XCDR");
+    }
+    if wn == 1 && rn == 2 {
+        kani::cover!(m1 == bit(DATA_REPRESENTATION_QOS_POLICY_ID), "only representation incompatible, reader list of two");
+        kani::cover!(expect == 0 && d == a && c != a, "offer matched by the reader's second entry");
+    }
+    if wn == 2 && rn == 1 {
+        kani::cover!(expect == 0 && b != c, "writer's first entry is the offer (second entry not accepted by the reader)");
+        kani::cover!(m1 == bit(DATA_REPRESENTATION_QOS_POLICY_ID) && b == c, "writer's second entry is not offered");
+    }
+    core::mem::forget((w, r, p, s));
+}
+
+// @check props=C15 tier=quick
+// @desc group 4 (data representation): for every pair of representation lists (writer offers its first entry or XCDR if empty; reader accepts any entry, empty = [XCDR]) both real functions report exactly the incompatible policies of the table and agree with each other
+// @bounds representation lists of every length pair (0..=2) x (0..=2) (nine cases with concrete lengths in one harness) with any u16 ids on both sides; all other policies default. unwind 10
+// @enc dcps::dcps_domain_participant::discovery_methods::get_discovered_reader_incompatible_qos_policy_list
+// @enc dcps::dcps_domain_participant::discovery_methods::get_discovered_writer_incompatible_qos_policy_list
+#[kani::proof]
+#[kani::unwind(10)]
+fn c15_rxo_group4_representation__rest() {
+    let mut wn = 0;
+    while wn <= 2 {
+        let mut rn = 0;
+        while rn <= 2 {
+            representation_case(wn, rn);
+            rn += 1;
+        }
+        wn += 1;
+    }
 }
 
 // @check props=C15 tier=quick known=KF-C15-1
@@ -265,3 +457,4 @@ fn c15_presentation_flags__known() {
     assert!(v.reader_side.0 == expect, "C15: presentation verdict equals the DDS table (offered-but-not-requested flags are compatible), reader side");
     core::mem::forget((w, r, p, s));
 }
+
